@@ -1,11 +1,185 @@
-(* C07 -- property theorems only. *)
+(* C07 -- property theorems only.  Each is closed by [exact] of a lemma proved
+   in Proofs/C07.v; Print Assumptions beneath each.
+
+   Vocabulary (Model/C07.v, Model/C02.v):
+     good_resource root r = Some names   r is a resource of the tree whose lineage names are admissible
+                                         (non-empty, no '/', not '.' / '..', not starting '@@', Unicode scalar
+                                         values) and which item lookup along those names reaches (consistency)
+     find7 root start p                  pyramid.traversal.find_resource(resource at [start], p)
+     resource_path_tuple / resource_path the path tuple / string of a resource
+     resource_url_adapter m              ResourceURL(resource, request); m = which text of the virtual-root block
+     inside root vt r = Some v           r lies in the subtree of the resource v found at the virtual-root segments
+     header_segments vroot = Some vt     the HTTP_X_VHM_ROOT header decodes to the segments vt ([] when absent)
+     request_back                        context / view name / context seen by the view when the URL path is requested *)
 From Coq Require Import List NArith Bool.
 Import ListNotations.
-Require Import Verif.Lib.Wire Verif.Lib.PathNorm Verif.Lib.C07Types Verif.Gen.Facts_C07 Verif.Model.C02 Verif.Model.C07 Verif.Proofs.C07.
+Require Import Verif.Lib.Wire Verif.Lib.Text Verif.Lib.PathNorm Verif.Lib.Utf8 Verif.Lib.Percent Verif.Lib.C07Types
+               Verif.Gen.Facts_C02 Verif.Gen.Facts_C07 Verif.Model.C02 Verif.Model.C07
+               Verif.Proofs.C07_rt Verif.Proofs.C07.
 
+(* the regenerated facts are the ones the proofs were written against (in
+   particular: ResourceURL compares decoded segments) *)
 Theorem C07_facts_ok :
   url_vroot_mode = UrlTupleCompare /\ c07_name_default = [] /\ c07_root_tuple = [[]] /\
   c07_trail_elt = [] /\ c07_trail_sep = [slash] /\ c07_vtuple_head = [[]] /\
-  c07_elements_sep = [slash] /\ c07_script_quoted = true.
+  c07_elements_sep = [slash] /\ c07_script_quoted = true /\
+  c07_elements_safe = path_segment_safe /\ c07_script_safe = path_segment_safe ++ [slash].
 Proof. exact facts_ok7. Qed.
 Print Assumptions C07_facts_ok.
+
+(* find_path_tuple: the path tuple resolves back to the very resource, from any starting resource *)
+Theorem C07_find_path_tuple : forall root r a names, good_resource root r = Some names ->
+  xbind (resource_path_tuple root r []) (fun t => find7 root a (PTuple t)) = Val (FoundAt r).
+Proof. exact find_path_tuple. Qed.
+Print Assumptions C07_find_path_tuple.
+
+(* find_path_string: so does the path string (quote -> ascii -> webob unquote -> UTF-8 -> split -> walk) *)
+Theorem C07_find_path_string : forall root r a names, good_resource root r = Some names ->
+  xbind (resource_path root r []) (fun s => find7 root a (PStr s)) = Val (FoundAt r).
+Proof. exact find_path_string. Qed.
+Print Assumptions C07_find_path_string.
+
+(* relative_absolute_agree, partial: excluded is exactly the class "the first
+   relative segment reads <letters>:" (scheme_like); the common answer is the
+   item lookup from [a] (spec_lookup), in particular KeyError for a missing name.
+   Full statement (false of the code, see C07_relative_absolute_agree_refuted):
+   the same without the hypothesis [scheme_like rel = false]. *)
+Theorem C07_relative_absolute_agree_partial : forall root a r names_a rel,
+  good_resource root a = Some names_a -> forallb admissible rel = true -> scheme_like rel = false ->
+  exists f, spec_lookup root a rel = Some f /\
+    find7 root a (PTuple rel) = Val f /\
+    xbind (resource_path_tuple root a rel) (fun t => find7 root r (PTuple t)) = Val f.
+Proof. exact relative_absolute_agree. Qed.
+Print Assumptions C07_relative_absolute_agree_partial.
+
+Theorem C07_relative_absolute_agree_str_partial : forall root a r names_a rel s_abs,
+  good_resource root a = Some names_a -> forallb admissible rel = true -> scheme_like rel = false ->
+  abs_string root a (qpath rel) = Val s_abs ->
+  exists f, spec_lookup root a rel = Some f /\
+    find7 root a (PStr (qpath rel)) = Val f /\ find7 root r (PStr s_abs) = Val f.
+Proof. exact relative_absolute_agree_str. Qed.
+Print Assumptions C07_relative_absolute_agree_str_partial.
+
+Theorem C07_relative_absolute_agree_refuted :
+  good_resource wit7 [] = Some [] /\ forallb admissible [n_http; n_x] = true /\
+  forallb admissible [n_colon; n_c] = true /\
+  scheme_like [n_http; n_x] = true /\ scheme_like [n_colon; n_c] = true /\
+  spec_lookup wit7 [] [n_http; n_x] = Some (FoundAt [3; 0]) /\
+  find7 wit7 [] (PTuple [n_http; n_x]) = Val (FoundAt [4]) /\
+  find7 wit7 [] (PTuple ([] :: [n_http; n_x])) = Val (FoundAt [3; 0]) /\
+  spec_lookup wit7 [] [n_colon; n_c] = Some (FoundAt [5; 0]) /\
+  find7 wit7 [] (PTuple [n_colon; n_c]) = Err ETypeError /\
+  find7 wit7 [] (PTuple ([] :: [n_colon; n_c])) = Val (FoundAt [5; 0]).
+Proof. exact relative_absolute_agree_refuted. Qed.
+Print Assumptions C07_relative_absolute_agree_refuted.
+
+(* the excluded class, read on the joined text webob sees: it is decided by the first segment as given *)
+Theorem C07_scheme_like_first_segment : forall s r, forallb valid_scalar s = true ->
+  has_scheme (qpath (s :: r)) = has_scheme s.
+Proof. exact scheme_like_first_segment. Qed.
+Print Assumptions C07_scheme_like_first_segment.
+
+(* the absolute form of a lookup needs no side condition *)
+Theorem C07_absolute_lookup : forall root a r names_a rel,
+  good_resource root a = Some names_a -> forallb admissible rel = true ->
+  exists f, spec_lookup root a rel = Some f /\
+    xbind (resource_path_tuple root a rel) (fun t => find7 root r (PTuple t)) = Val f.
+Proof. exact absolute_lookup. Qed.
+Print Assumptions C07_absolute_lookup.
+
+(* find_missing: a missing name raises KeyError, relative and absolute *)
+Theorem C07_find_missing : forall root a names_a rel x,
+  good_resource root a = Some names_a -> forallb admissible rel = true -> has_scheme (qpath rel) = false ->
+  node_at root a = Some x -> descend (a, x) rel = None ->
+  find7 root a (PTuple rel) = Val KeyErr /\
+  xbind (resource_path_tuple root a rel) (fun t => find7 root a (PTuple t)) = Val KeyErr.
+Proof. exact find_missing. Qed.
+Print Assumptions C07_find_missing.
+
+(* resource_url_shape: application URL + (virtual) path with trailing slash + quoted elements;
+   spec_virtual_path omits the virtual-root prefix exactly when the resource is inside *)
+Theorem C07_resource_url_shape : forall root r names els vroot vt sn d app,
+  good_resource root r = Some names -> header_segments vroot = Some vt ->
+  forallb (forallb valid_scalar) els = true -> decode_path_info sn = Ok d ->
+  resource_url UrlTupleCompare root r els vroot sn (Some app)
+    = Val (app ++ spec_virtual_path root r names vt ++ join [slash] (map q els)) /\
+  request_resource_path UrlTupleCompare root r els vroot sn
+    = Val (Percent.quote c07_script_safe (Utf8.encode d) ++ spec_virtual_path root r names vt
+           ++ join [slash] (map q els)).
+Proof. exact resource_url_shape. Qed.
+Print Assumptions C07_resource_url_shape.
+
+(* resource_url_roundtrip: without a virtual root *)
+Theorem C07_resource_url_roundtrip : forall root r names sn d app,
+  good_resource root r = Some names -> decode_path_info sn = Ok d ->
+  resource_url UrlTupleCompare root r [] None sn (Some app) = Val (app ++ slashed names) /\
+  request_back UrlTupleCompare root r None = Val (r, [], Some r).
+Proof. exact resource_url_roundtrip. Qed.
+Print Assumptions C07_resource_url_roundtrip.
+
+(* vroot_trim_iff_inside (full statement, for the repaired adapter) *)
+Theorem C07_vroot_trim_iff_inside : forall root r names vroot vt u,
+  good_resource root r = Some names -> header_segments vroot = Some vt -> vt <> [] ->
+  resource_url_adapter UrlTupleCompare root r vroot = Val u ->
+  (ru_vp u <> ru_pp u <-> exists v, inside root vt r = Some v) /\
+  (forall v, inside root vt r = Some v ->
+     ru_pp u = (slash :: qpath vt) ++ ru_vp u /\ ru_vp u = slashed (skipn (length vt) names)).
+Proof. exact vroot_trim_iff_inside. Qed.
+Print Assumptions C07_vroot_trim_iff_inside.
+
+Theorem C07_url_virtual_path : forall root r names vroot vt,
+  good_resource root r = Some names -> header_segments vroot = Some vt ->
+  exists u, resource_url_adapter UrlTupleCompare root r vroot = Val u /\
+            ru_vp u = spec_virtual_path root r names vt /\ ru_pp u = slashed names.
+Proof. exact url_virtual_path. Qed.
+Print Assumptions C07_url_virtual_path.
+
+(* ... and for a resource inside the virtual root the URL still traverses back
+   to it when requested with the same header *)
+Theorem C07_url_traverses_back : forall root r names vroot vt v,
+  good_resource root r = Some names -> header_segments vroot = Some vt -> inside root vt r = Some v ->
+  request_back UrlTupleCompare root r vroot = Val (r, [], Some r).
+Proof. exact url_traverses_back. Qed.
+Print Assumptions C07_url_traverses_back.
+
+(* the two refutations for the unrepaired text of the block (UrlStringPrefix) *)
+Theorem C07_vroot_trim_refuted_sibling :
+  good_resource wit7 [1] = Some [n_onetwo] /\ header_segments (Some h_one) = Some [n_one] /\
+  inside wit7 [n_one] [1] = None /\
+  spec_virtual_path wit7 [1] [n_onetwo] [n_one] = [47; 111; 110; 101; 116; 119; 111; 47]%N /\
+  exists u, resource_url_adapter UrlStringPrefix wit7 [1] (Some h_one) = Val u /\
+            ru_vp u = [116; 119; 111; 47]%N /\ ru_vp u <> ru_pp u.
+Proof. exact vroot_trim_refuted_sibling. Qed.
+Print Assumptions C07_vroot_trim_refuted_sibling.
+
+Theorem C07_vroot_trim_refuted_quoting :
+  good_resource wit7 [2; 0] = Some [n_ab; n_c] /\ header_segments (Some h_ab) = Some [n_ab] /\
+  inside wit7 [n_ab] [2; 0] = Some [2] /\
+  spec_virtual_path wit7 [2; 0] [n_ab; n_c] [n_ab] = [47; 99; 47]%N /\
+  (exists u, resource_url_adapter UrlStringPrefix wit7 [2; 0] (Some h_ab) = Val u /\
+             ru_vp u = [47; 97; 37; 50; 48; 98; 47; 99; 47]%N /\ ru_vp u = ru_pp u) /\
+  request_back UrlStringPrefix wit7 [2; 0] (Some h_ab) = Val ([2], n_ab, None) /\
+  virtual_root UrlStringPrefix wit7 [2; 0] (Some h_ab) = Val (FoundAt []).
+Proof. exact vroot_trim_refuted_quoting. Qed.
+Print Assumptions C07_vroot_trim_refuted_quoting.
+
+(* virtual_root_inverts: virtual_root() is the resource at the header path whenever the resource is inside *)
+Theorem C07_virtual_root_inverts : forall root r names vroot vt v,
+  good_resource root r = Some names -> header_segments vroot = Some vt -> inside root vt r = Some v ->
+  virtual_root UrlTupleCompare root r vroot = Val (FoundAt v).
+Proof. exact virtual_root_inverts. Qed.
+Print Assumptions C07_virtual_root_inverts.
+
+(* the round trip lemmas C02 left open *)
+Theorem C07_webob_unquote_quoted_path : forall segs tail,
+  Forall (fun s => forallb valid_scalar s = true) segs -> (tail = [] \/ exists t, tail = slash :: t) ->
+  webob_unquote (qpath segs ++ tail) = join [slash] (map Utf8.encode segs) ++ webob_unquote tail.
+Proof. exact wu_qpath. Qed.
+Print Assumptions C07_webob_unquote_quoted_path.
+
+Theorem C07_path_info_decodes : forall segs trail,
+  Forall (fun s => forallb valid_scalar s = true) segs -> Forall normal_seg segs ->
+  decode_path_info (wire_path segs trail) = Ok (text_path segs trail) /\
+  split_path_info (text_path segs trail) = segs.
+Proof. exact path_info_decodes. Qed.
+Print Assumptions C07_path_info_decodes.
